@@ -10,6 +10,7 @@ CONSTANTS
   Questions <- Q0
   AllowEnd = FALSE
   MaxRequery = 0
-INVARIANTS TypeOK InOrderNoDup SlotBound NoSplice
+  FixCommitState = TRUE
+INVARIANTS TypeOK InOrderNoDup SlotBound NoSplice NoNilKey
 PROPERTIES TamperRejected
 CHECK_DEADLOCK FALSE
